@@ -8,6 +8,7 @@ import (
 	"crypto/rand"
 	stdx509 "crypto/x509"
 	"crypto/x509/pkix"
+	"errors"
 	"fmt"
 	"math/big"
 	"net"
@@ -16,6 +17,7 @@ import (
 	"time"
 
 	"github.com/tjfoc/gmsm/gmtls"
+	gx "github.com/tjfoc/gmsm/x509"
 	"pgregory.net/rapid"
 
 	"verifharness/gen"
@@ -37,6 +39,7 @@ func TestMain(m *testing.M) {
 	for _, k := range []string{"rsa", "p224", "p256", "p384", "p521"} {
 		R.Require("std_client_wrong_key:" + k)
 	}
+	R.Require("pinned_peer_rejects")
 	R.Require("suite:e013", "suite:e053", "skipverify")
 	hx.Main(m, R)
 }
@@ -62,6 +65,7 @@ func TestC08_MisconfiguredPeers(t *testing.T) {
 		cc.CipherSuites, sc.CipherSuites = []uint16{suite}, []uint16{suite}
 		cc.InsecureSkipVerify = skip
 		attack := ""
+		pinned := false
 		stdKind := ""
 		expectFail := true
 		serverSide := rapid.Bool().Draw(t, "serverSide")
@@ -107,6 +111,20 @@ func TestC08_MisconfiguredPeers(t *testing.T) {
 				sign = wrongKey(p.SrvSign, p.SrvEnc)
 			}
 			sc.Certificates = []gmtls.Certificate{sign, enc}
+			if skip && rapid.Bool().Draw(t, "pinned") {
+				// a client that does its own trust decision: chain verification off, VerifyPeerCertificate accepts exactly the
+				// two genuine certificates ("pinning"). Every other pair must be turned away again.
+				pinned = true
+				cc.VerifyPeerCertificate = func(raw [][]byte, _ [][]*gx.Certificate) error {
+					if len(raw) == 2 && bytes.Equal(raw[0], p.SrvSign.DER) && bytes.Equal(raw[1], p.SrvEnc.DER) {
+						return nil
+					}
+					return errors.New("pin: not the pinned server certificates")
+				}
+				if attack != "baseline" {
+					expectFail = true
+				}
+			}
 		} else {
 			attack = rapid.SampledFrom(clientAttacks).Draw(t, "attack")
 			sc.ClientCAs = p.RootsSM2
@@ -135,6 +153,19 @@ func TestC08_MisconfiguredPeers(t *testing.T) {
 					cert = pair[0].TLS
 				} else {
 					cert = wrongKey(pair[0], pair[1])
+				}
+			}
+			if sc.ClientAuth == gmtls.RequireAnyClientCert && rapid.Bool().Draw(t, "pinnedClient") {
+				// the server-side counterpart: any certificate is taken, and the callback accepts only the pinned one
+				pinned = true
+				sc.VerifyPeerCertificate = func(raw [][]byte, _ [][]*gx.Certificate) error {
+					if len(raw) >= 1 && bytes.Equal(raw[0], p.Client.DER) {
+						return nil
+					}
+					return errors.New("pin: not the pinned client certificate")
+				}
+				if attack != "baseline" {
+					expectFail = true
 				}
 			}
 			c := cert
@@ -172,10 +203,13 @@ func TestC08_MisconfiguredPeers(t *testing.T) {
 		if stdKind != "" {
 			cl = append(cl, "std_client_wrong_key:"+stdKind)
 		}
+		if pinned && attack != "baseline" {
+			cl = append(cl, "pinned_peer_rejects")
+		}
 		if skip {
 			cl = append(cl, "skipverify")
 		}
-		R.Case(attack != "baseline" && len(r.S2C) > 100, hx.HashKey("misc", attack, suite, skip, int(sc.ClientAuth), stdKind), cl...)
+		R.Case(attack != "baseline" && len(r.S2C) > 100, hx.HashKey("misc", attack, suite, skip, int(sc.ClientAuth), stdKind, pinned), cl...)
 		R.Sample(attack, map[string]interface{}{"suite": fmt.Sprintf("%x", suite), "skipVerify": skip, "client_err": fmt.Sprint(r.Client.HSErr), "server_err": fmt.Sprint(r.Server.HSErr)})
 	})
 }
